@@ -21,6 +21,10 @@ var craftedSpecs = []struct{ name, spec string }{
 	{"two-pattern-responses-same-schema", `{"openapi":"3.0.3","info":{"title":"t","version":"1"},"paths":{"/a":{"get":{"operationId":"a","responses":{"200":{"description":"ok"},"4XX":{"description":"f","content":{"application/json":{"schema":{"$ref":"#/components/schemas/Fault"}}}},"5XX":{"description":"f","content":{"application/json":{"schema":{"$ref":"#/components/schemas/Fault"}}}}}}}},"components":{"schemas":{"Fault":{"type":"object","properties":{"m":{"type":"string"}}}}}}`},
 	{"pattern-and-default-response-same-schema", `{"openapi":"3.0.3","info":{"title":"t","version":"1"},"paths":{"/a":{"get":{"operationId":"a","responses":{"200":{"description":"ok"},"4XX":{"description":"f","content":{"application/json":{"schema":{"$ref":"#/components/schemas/Fault"}}}},"default":{"description":"f","content":{"application/json":{"schema":{"$ref":"#/components/schemas/Fault"}}}}}}},"/b":{"get":{"operationId":"b","responses":{"200":{"description":"ok"}}}}},"components":{"schemas":{"Fault":{"type":"object","properties":{"m":{"type":"string"}}}}}}`},
 	{"two-responses-same-nullable-primitive", `{"openapi":"3.0.3","info":{"title":"t","version":"1"},"paths":{"/a":{"get":{"operationId":"a","responses":{"200":{"description":"r","content":{"application/json":{"schema":{"type":"integer","format":"int32","nullable":true}}}},"400":{"description":"r","content":{"application/json":{"schema":{"type":"integer","format":"int32","nullable":true}}}}}}}}}`},
+	// optional nullable object beside a two-way recursive component (F-C02-27): the struct recursion check meets the
+	// Tree -> Tree cycle below the field and re-boxes the field with a wrapper that is never emitted; also a security
+	// requirement naming an implemented and an unimplemented scheme (repaired, F-C02-F4)
+	{"optional-nullable-object-over-recursive-component", `{"openapi":"3.0.3","info":{"title":"t","version":"1"},"paths":{"/x":{"get":{"operationId":"op0","responses":{"200":{"description":"r","content":{"application/json":{"schema":{"type":"object","properties":{"id0":{"$ref":"#/components/schemas/Thing5"}}}}}}}}}},"components":{"schemas":{"Thing5":{"type":"object","nullable":true,"properties":{"name0":{"$ref":"#/components/schemas/Tree4"}}},"Tree4":{"type":"object","properties":{"children":{"type":"array","items":{"$ref":"#/components/schemas/Tree4"}},"parent":{"$ref":"#/components/schemas/Tree4"}}}}}}`},
 	{"ok-and-default-response-same-nullable-primitive", `{"openapi":"3.0.3","info":{"title":"t","version":"1"},"paths":{"/a":{"get":{"operationId":"a","responses":{"200":{"description":"r","content":{"application/json":{"schema":{"type":"integer","format":"int32","nullable":true}}}},"default":{"description":"r","content":{"application/json":{"schema":{"type":"integer","format":"int32","nullable":true}}}}}}},"/b":{"get":{"operationId":"b","responses":{"200":{"description":"ok"}}}}}}`},
 }
 
@@ -155,6 +159,15 @@ func workload(r *ev.Run) ([]*Job, map[string]any, error) {
 			jobs = append(jobs, &Job{Kind: "crafted", ID: "single/" + c.name + "#" + fs.Label, Text: c.spec, Feat: fs})
 		}
 	}
+	// skipped constructs: an operation contributes something generator-wide (security scopes, component types,
+	// parameters, response headers) and is then dropped under ignore_not_implemented because of one unsupported
+	// detail; a second, supported operation uses the same components. What the dropped operation left behind must
+	// not be referred to by the files that are written.
+	for _, c := range skippedSpecs() {
+		for _, fs := range []FeatSet{fixed[1], fixed[0]} {
+			jobs = append(jobs, &Job{Kind: "crafted", ID: "skipped/" + c.name + "#" + fs.Label, Text: c.spec, Feat: fs, IgnoreAll: true})
+		}
+	}
 	rj, err := randomJobs(r)
 	if err != nil {
 		return nil, nil, err
@@ -273,5 +286,68 @@ func singletonSpecs() []struct{ name, spec string } {
 	out = append(out, struct{ name, spec string }{"webhook-only", `{"openapi":"3.1.0","info":{"title":"t","version":"1"},"paths":{},"webhooks":{"e":{"post":{"operationId":"hook","requestBody":{"content":{"application/json":{"schema":` + obj + `}}},"responses":{"200":{"description":"ok"}}}}}}`})
 	out = append(out, struct{ name, spec string }{"servers-with-variables-only", `{"openapi":"3.0.3","info":{"title":"t","version":"1"},"servers":[{"url":"https://{region}.example.com/{base}","x-ogen-server-name":"prod","variables":{"region":{"default":"eu","enum":["eu","us"]},"base":{"default":"v1"}}}],"paths":{"/a":{"get":{"operationId":"a",` + ok + `}}}}`})
 	out = append(out, struct{ name, spec string }{"operation-groups-only", `{"openapi":"3.0.3","info":{"title":"t","version":"1"},"paths":{"/a":{"get":{"operationId":"a","x-ogen-operation-group":"Alpha",` + ok + `}},"/b":{"get":{"operationId":"b","x-ogen-operation-group":"Beta",` + ok + `}}}}`})
+	return out
+}
+
+// skippedSpecs: see newWorkload. contribution x unsupported detail, plus two operations sharing wrappers.
+func skippedSpecs() []struct{ name, spec string } {
+	contrib := []struct{ name, op, comps string }{
+		{"oauth2-scopes", `"security":[{"o2":["read","write"]}]`, `"securitySchemes":{"o2":{"type":"oauth2","flows":{"implicit":{"authorizationUrl":"https://e.com/a","scopes":{"read":"r","write":"w"}}}}}`},
+		{"api-key", `"security":[{"k":[]}]`, `"securitySchemes":{"k":{"type":"apiKey","in":"header","name":"X-K"}}`},
+		{"component-parameter", `"parameters":[{"$ref":"#/components/parameters/P"}]`, `"parameters":{"P":{"name":"p","in":"query","schema":{"type":"string","enum":["a","b"]}}}`},
+		{"component-request-body", `"requestBody":{"$ref":"#/components/requestBodies/B"}`, `"requestBodies":{"B":{"required":true,"content":{"application/json":{"schema":{"$ref":"#/components/schemas/Item"}}}}},"schemas":{"Item":{"type":"object","properties":{"a":{"type":"string"},"n":{"type":"integer","nullable":true}}}}`},
+		{"inline-types", `"parameters":[{"name":"mode","in":"query","schema":{"type":"string","enum":["x","y"]}},{"name":"lim","in":"header","schema":{"type":"integer","nullable":true}}]`, ``},
+	}
+	tails := []struct{ name, method, extra string }{
+		{"xml-response", "get", `"responses":{"200":{"description":"ok","content":{"application/xml":{"schema":{"type":"object","properties":{"a":{"type":"string"}}}}}}}`},
+		{"xml-and-json-response-headers", "get", `"responses":{"200":{"description":"ok","headers":{"X-Rate":{"schema":{"type":"integer"}}},"content":{"application/xml":{"schema":{"type":"string"}}}},"default":{"description":"e","content":{"application/json":{"schema":{"type":"object","properties":{"code":{"type":"integer"}}}}}}}`},
+		{"sum-parameter", "get", `"parameters_extra":{"name":"u","in":"query","schema":{"oneOf":[{"type":"string"},{"type":"integer"}]}},"responses":{"200":{"description":"ok","content":{"application/json":{"schema":{"type":"string","nullable":true}}}}}`},
+		{"space-delimited-parameter", "get", `"parameters_extra":{"name":"u","in":"query","style":"spaceDelimited","schema":{"type":"array","items":{"type":"string"}}},"responses":{"200":{"description":"ok"}}`},
+	}
+	var out []struct{ name, spec string }
+	for _, c := range contrib {
+		for _, t := range tails {
+			if strings.Contains(c.op, "requestBody") && t.method == "get" {
+				t.method = "post"
+			}
+			op := func(id string, tail string) string {
+				parts := []string{fmt.Sprintf(`"operationId":%q`, id)}
+				cop := c.op
+				if i := strings.Index(tail, `"parameters_extra":`); i >= 0 {
+					// merge the extra parameter into the operation's parameter list
+					rest := tail[i+len(`"parameters_extra":`):]
+					depth, end := 0, 0
+					for k, ch := range rest {
+						if ch == '{' {
+							depth++
+						} else if ch == '}' {
+							depth--
+							if depth == 0 {
+								end = k + 1
+								break
+							}
+						}
+					}
+					extra := rest[:end]
+					tail = tail[:i] + strings.TrimPrefix(rest[end:], ",")
+					if strings.HasPrefix(cop, `"parameters":[`) {
+						cop = `"parameters":[` + extra + "," + strings.TrimPrefix(cop, `"parameters":[`)
+					} else {
+						parts = append(parts, `"parameters":[`+extra+`]`)
+					}
+				}
+				if cop != "" {
+					parts = append(parts, cop)
+				}
+				parts = append(parts, tail)
+				return "{" + strings.Join(parts, ",") + "}"
+			}
+			okTail := `"responses":{"200":{"description":"ok","content":{"application/json":{"schema":{"type":"string","nullable":true}}}},"404":{"description":"nf","content":{"application/json":{"schema":{"type":"integer","nullable":true}}}}}`
+			comps := c.comps
+			spec := fmt.Sprintf(`{"openapi":"3.0.3","info":{"title":"t","version":"1"},"paths":{"/dropped":{%q:%s},"/kept":{%q:%s},"/kept2":{%q:%s}},"components":{%s}}`,
+				t.method, op("droppedOp", t.extra), t.method, op("keptOp", okTail), t.method, op("keptOp2", okTail), comps)
+			out = append(out, struct{ name, spec string }{c.name + "+" + t.name, spec})
+		}
+	}
 	return out
 }
